@@ -25,8 +25,15 @@ def removal_fns(prog):
         if pool not in roles:
             continue
         r = roles[pool]
-        for f in prog.fns.values():
-            if f.self_adt == tree and not f.is_closure and f.trait_method() != 'clear' and calls_to(prog, f, r['release']):
+        from rules.pool import select_removal
+        tree_fns = [f for f in prog.fns.values() if f.self_adt == tree and not f.is_closure]
+        sel = select_removal(prog, tree, r, tree_fns)
+        if len(sel['removal']) == 1 and not sel['bad']:
+            # the removal transaction as POOL identifies it (release calls may sit in pass-through helpers)
+            out[sel['removal'][0].path] = sel['removal'][0]
+            continue
+        for f in tree_fns:
+            if f.trait_method() != 'clear' and calls_to(prog, f, r['release']):
                 out[f.path] = f
     return out
 
